@@ -132,3 +132,40 @@ pub fn cases(args: &[String]) {
     }
     std::fs::write(&args[2], serde_json::to_string(&json!({"cases": n, "failures": fails})).unwrap()).unwrap();
 }
+
+/// relayout-cases <in.ndjson> <out.json>: every record {"text", "variants": [...]} - the variants differ from the text
+/// in layout only (blanks, comments, line breaks); the analysis must observe the same symbols, diagnostics and graph.
+pub fn relayout(args: &[String]) {
+    use rayon::prelude::*;
+    let recs = read_ndjson(&args[0]);
+    let fails: std::sync::Mutex<Vec<Value>> = std::sync::Mutex::new(vec![]);
+    let n = std::sync::atomic::AtomicU64::new(0);
+    let obs = |t: &str| -> Value {
+        let o = analyze_string(t, None, true);
+        if let Some(p) = o.get("panic") {
+            return json!({"panic": p["msg"]});
+        }
+        let mut kinds = vec![];
+        all_kinds(&o["sem_errors"], &mut kinds);
+        json!({"syntax": o["any_syntax_errors"], "symbols": o["symbols"], "diagnostics": kinds, "stmts": o["stmts"]})
+    };
+    recs.par_iter().for_each(|r| {
+        let text = r["text"].as_str().unwrap();
+        let base = obs(text);
+        for v in r["variants"].as_array().unwrap() {
+            n.fetch_add(1, std::sync::atomic::Ordering::Relaxed);
+            let vt = v.as_str().unwrap();
+            let o = obs(vt);
+            if o != base {
+                let mut f = fails.lock().unwrap();
+                if f.len() < 200 {
+                    let what = if o["symbols"] != base["symbols"] { "symbols" } else if o["diagnostics"] != base["diagnostics"] { "diagnostics" } else { "graph" };
+                    f.push(json!({"text": text, "variant": vt, "differs_in": what,
+                                  "base": {"symbols": base["symbols"], "diagnostics": base["diagnostics"]}, "observed": {"symbols": o["symbols"], "diagnostics": o["diagnostics"]}}));
+                }
+                break;
+            }
+        }
+    });
+    std::fs::write(&args[1], serde_json::to_string(&json!({"texts": recs.len(), "variants": n.into_inner(), "failures": fails.into_inner().unwrap()})).unwrap()).unwrap();
+}
